@@ -6,13 +6,17 @@
   every permutation of that list" (`List.Perm`), "for every schedule of a whole policy" is `Resched`
   (the entries of every record literal, at every depth, listed in some other order).
 
-  What holds in full: the decision, the reasons and the erroring policies of `Authorize` are independent
-  of the order in which policies are yielded, of repetitions of a policy in the sequence, of the
-  insertion order of the entity store, of the order in which parents / set members are enumerated, and of
-  the schedule of every record literal; every encoder that sorts what it collected is canonical.
-  What fails (genuine defects of the unchanged code, each with a `_counterexample`): WHICH error a record
-  literal with several erroring entries reports; WHICH non-entity member the message of `in` names; the
-  entry / annotation order of a policy decoded from JSON and printed as Cedar text.
+  What holds in full: the decision, the reasons and the erroring policies of `Authorize` — WITH their error kinds —
+  are independent of the order in which policies are yielded, of repetitions of a policy in the sequence, of the
+  insertion order of the entity store, of the order in which parents / set members are enumerated, and of the
+  schedule of every record literal; every encoder that sorts what it collected is canonical; decoding a policy
+  from JSON lists record entries and annotations by key.
+  History.  Five genuine defects of the unchanged code had `_counterexample` theorems here: WHICH error a record
+  literal with several erroring entries reports (`recordLiteralEval.Eval` ranged over a Go map), WHICH non-entity
+  member the message of `in` names, the entry / annotation order of a policy decoded from JSON and printed as Cedar
+  text, the slot order of colliding members of a schema-coerced set.  All five are repaired (the loops now visit
+  sorted keys); the model functions sort, the `_partial` theorems are full, the counterexample inputs are
+  regression `example`s.
 -/
 import CedarGoProofs.Lemmas.C14
 import CedarGoProofs.Properties.C20
@@ -96,22 +100,20 @@ theorem C14_authorize_entities_order_indep (ps : List (PolicyID × Policy)) (env
       rw [this, ih]
   rw [this]
 
-/-- FULL statement (false today): `Resched e e' → eval e env = eval e' env`.
-    Proved: two schedules of the same expression (every record literal's entries enumerated in any
-    order, at every depth) give the same value, and one errors iff the other does.  Missing: the error
-    KIND/message (see `C14_evalRecordLit_order_counterexample`). -/
-theorem C14_eval_schedule_indep_partial (e e' : Expr) (env : Env) (h : Resched e e') :
-    Res.sim (eval e env) (eval e' env) :=
+/-- Two schedules of the same expression (every record literal's entries enumerated in any order, at every depth)
+    give the same result: the same value or the same error kind.
+    (Was `C14_eval_schedule_indep_partial`, "up to WHICH error", while `recordLiteralEval.Eval` ranged over a Go map.) -/
+theorem C14_eval_schedule_indep (e e' : Expr) (env : Env) (h : Resched e e') :
+    eval e env = eval e' env :=
   eval_resched e e' env h
 
-/-- FULL statement (false today): the errors carry the same kinds/messages under every schedule.
-    Proved: under any two schedules of the policies' record literals the decision, the reasons and the
-    (id, position) of the erroring policies are identical. -/
-theorem C14_authorize_schedule_indep_partial (ps ps' : List (PolicyID × Policy)) (env : Env)
+/-- Under any two schedules of the policies' record literals the decision, the reasons and the errors — id, position
+    AND error kind of every erroring policy — are identical.  (Was `C14_authorize_schedule_indep_partial`: ids only.) -/
+theorem C14_authorize_schedule_indep (ps ps' : List (PolicyID × Policy)) (env : Env)
     (h : ReschedPolicies ps ps') :
     (authorize ps env).allow = (authorize ps' env).allow ∧
     (authorize ps env).reasons = (authorize ps' env).reasons ∧
-    (authorize ps env).errors.map (fun x => (x.1, x.2.1)) = (authorize ps' env).errors.map (fun x => (x.1, x.2.1)) := by
+    (authorize ps env).errors = (authorize ps' env).errors := by
   obtain ⟨hF, hP, hE⟩ := authorize_resched ps ps' env h
   unfold authorize
   refine ⟨?_, ?_, ?_⟩
@@ -124,29 +126,38 @@ theorem C14_authorize_schedule_indep_partial (ps ps' : List (PolicyID × Policy)
   · rw [C02_reasons_exact, C02_reasons_exact, hF, hP]
   · rw [C02_errors_exact, C02_errors_exact, hE]
 
-/-! ### Record literals (`recordLiteralEval` ranges over a Go map) -/
+/-! ### Record literals (`recordLiteralEval` visits the keys of a Go map in sorted order) -/
+
+/-- `canonKVs` — the order in which the shared model evaluates the entries of a record literal and lists the
+    entries / annotations of a decoded JSON policy — is, on the entries of a Go map (distinct keys), the list
+    sorted by key: the model of `for _, k := range slices.Sorted(maps.Keys(m))`, whatever order the map yields. -/
+theorem C14_canonKVs_is_sort {α : Type} (entriesInMapOrder : List (String × α))
+    (hk : (entriesInMapOrder.map (·.1)).Nodup) :
+    canonKVs entriesInMapOrder = sortBy keyLe entriesInMapOrder :=
+  canonKVs_eq_sortBy entriesInMapOrder hk
 
 /-- what `eval` does on a record literal is `evalRecordLitOrd` on its entry list -/
 theorem C14_evalRecordLit_is_eval (kes : List (String × Expr)) (env : Env) :
     eval (.record kes) env = evalRecordLitOrd kes env := eval_record_eq_ord kes env
 
-/-- FULL statement (false today): `kes₁.Perm kes₂ → evalRecordLitOrd kes₁ env = evalRecordLitOrd kes₂ env`.
-    Proved: (1) one order errors iff the other does; (2) successful evaluations give the same record;
-    (3) if all erroring entries fail with the same error kind (in particular if at most one entry
-    errors) the two results are equal. -/
-theorem C14_evalRecordLit_order_indep_partial (kes₁ kes₂ : List (String × Expr)) (env : Env)
+/-- Whatever order the map yields its (distinct) keys in, the literal evaluates to the same result — the same
+    record, or the same error (the error of the erroring entry with the least key).
+    (Was `C14_evalRecordLit_order_indep_partial`: only error-ness, and equality when all erroring entries fail alike.) -/
+theorem C14_evalRecordLit_order_indep (kes₁ kes₂ : List (String × Expr)) (env : Env)
     (hp : kes₁.Perm kes₂) (hk : (kes₁.map (·.1)).Nodup) :
-    ((∃ e, evalRecordLitOrd kes₁ env = .error e) ↔ (∃ e, evalRecordLitOrd kes₂ env = .error e)) ∧
-    (∀ v w, evalRecordLitOrd kes₁ env = .ok v → evalRecordLitOrd kes₂ env = .ok w → v = w) ∧
-    ((∀ ke ∈ kes₁, ∀ ke' ∈ kes₁, ∀ e e', eval ke.2 env = .error e → eval ke'.2 env = .error e' → e = e') →
-      evalRecordLitOrd kes₁ env = evalRecordLitOrd kes₂ env) :=
+    evalRecordLitOrd kes₁ env = evalRecordLitOrd kes₂ env :=
   evalRecordLitOrd_perm kes₁ kes₂ env hp hk
 
-/-- `{a: 1 + "x", b: context.missing}`: a type error in one order, a missing-attribute error in the other. -/
-theorem C14_evalRecordLit_order_counterexample :
-    ∃ (kes₁ kes₂ : List (String × Expr)) (env : Env), kes₁.Perm kes₂ ∧ (kes₁.map (·.1)).Nodup ∧
-      evalRecordLitOrd kes₁ env ≠ evalRecordLitOrd kes₂ env :=
-  evalRecordLitOrd_perm_counterexample
+/-- regression (was `C14_evalRecordLit_order_counterexample`): `{a: 1 + "x", b: context.missing}` reported a type error
+    in one order and a missing-attribute error in the other; now the entry with the least key decides, in both orders -/
+example :
+    (evalRecordLitOrd [("a", .binop .add (.lit (.long 1)) (.lit (.str "x"))), ("b", .access (.var .context) "missing")]
+        { emptyEnv with context := .record [] }).toOption.isNone = true ∧
+    (match evalRecordLitOrd [("a", .binop .add (.lit (.long 1)) (.lit (.str "x"))), ("b", .access (.var .context) "missing")]
+        { emptyEnv with context := .record [] } with | .error e => some e | .ok _ => none) = some .type ∧
+    (match evalRecordLitOrd [("b", .access (.var .context) "missing"), ("a", .binop .add (.lit (.long 1)) (.lit (.str "x")))]
+        { emptyEnv with context := .record [] } with | .error e => some e | .ok _ => none) = some .type := by
+  refine ⟨by decide +kernel, by decide +kernel, by decide +kernel⟩
 
 /-! ### containsAll / containsAny / in -/
 
@@ -198,16 +209,16 @@ theorem C14_in_parent_order_indep (es es' : Entities)
     · exact ⟨b, hb, (hR a b).mpr hx⟩
   cases r <;> cases r' <;> simp_all
 
-/-- FULL statement (false today): the error message of `a in [members]` is order-independent.
-    Proved: it is when all non-entity members have the same type. -/
-theorem C14_in_set_message_order_indep_partial (xs xs' : List Value) (hp : xs.Perm xs')
-    (hsame : ∀ x ∈ xs, ∀ y ∈ xs, (∀ t i, x ≠ .entity t i) → (∀ t i, y ≠ .entity t i) → x.kind = y.kind) :
-    inSetFirstBad xs = inSetFirstBad xs' := inSetFirstBad_perm_of_sameKind xs xs' hp hsame
+/-- The error message of `a in [members]` — the type name it mentions — is independent of the order in which the set
+    yields its members: of the conversion errors the one that sorts first is reported.
+    (Was `C14_in_set_message_order_indep_partial`, for members of one type only, plus a counterexample.) -/
+theorem C14_in_set_message_order_indep (xs xs' : List Value) (hp : xs.Perm xs') :
+    inSetFirstBad xs = inSetFirstBad xs' := inSetFirstBad_perm xs xs' hp
 
-/-- `principal in [1, "x"]`: the message says `got long` or `got string` depending on the order. -/
-theorem C14_in_set_message_counterexample :
-    ∃ xs xs' : List Value, xs.Perm xs' ∧ inSetFirstBad xs ≠ inSetFirstBad xs' :=
-  inSetFirstBad_perm_counterexample
+/-- regression (was `C14_in_set_message_counterexample`): `principal in [1, "x"]` said `got long` or `got string`
+    depending on the order; now `got long` in both -/
+example : inSetFirstBad [.long 1, .str "x"] = some "long" ∧ inSetFirstBad [.str "x", .long 1] = some "long" := by
+  constructor <;> decide +kernel
 
 /-! ### Encoders -/
 
@@ -243,54 +254,72 @@ theorem C14_marshal_policyset_canonical (s₁ s₂ : PS) (hp : s₁.Perm s₂) :
 
 /-! ### JSON decode → encode -/
 
-/-- FULL statement (false today): `σ.Perm τ → cedarRecordKeyOrder (decodeRecordJsonOrd σ) = cedarRecordKeyOrder (decodeRecordJsonOrd τ)`.
-    The JSON decoder ranges over a Go map; the Cedar text printed afterwards lists the entries in that order. -/
-theorem C14_decode_encode_counterexample :
-    ∃ σ τ : List (String × Expr), σ.Perm τ ∧ (σ.map (·.1)).Nodup ∧
-      cedarRecordKeyOrder (decodeRecordJsonOrd σ) ≠ cedarRecordKeyOrder (decodeRecordJsonOrd τ) :=
-  ⟨[("a", .lit (.long 1)), ("b", .lit (.long 2))], [("b", .lit (.long 2)), ("a", .lit (.long 1))],
-    List.Perm.swap _ _ _, by decide, by decide⟩
+/-- The JSON decoder lists the entries of a `Record` node by key whatever order the Go map yields them in: the decoded
+    AST — hence the Cedar text printed from it — is the same.  (Was `C14_decode_encode_counterexample`.) -/
+theorem C14_decode_record_deterministic (σ τ : List (String × Expr)) (hp : σ.Perm τ) (hk : (σ.map (·.1)).Nodup) :
+    decodeRecordJsonOrd σ = decodeRecordJsonOrd τ := by
+  unfold decodeRecordJsonOrd; rw [canonKVs_perm hp hk]
 
-/-- …and the same for annotations -/
-theorem C14_decode_encode_annotations_counterexample :
-    ∃ (p : Policy) (σ τ : List (String × String)), σ.Perm τ ∧ (σ.map (·.1)).Nodup ∧
-      cedarAnnotationOrder (decodeAnnotationsOrd p σ) ≠ cedarAnnotationOrder (decodeAnnotationsOrd p τ) :=
-  ⟨{ effect := .permit }, [("a", "1"), ("b", "2")], [("b", "2"), ("a", "1")], List.Perm.swap _ _ _, by decide, by decide⟩
+theorem C14_decode_encode_deterministic (σ τ : List (String × Expr)) (hp : σ.Perm τ) (hk : (σ.map (·.1)).Nodup) :
+    cedarRecordKeyOrder (decodeRecordJsonOrd σ) = cedarRecordKeyOrder (decodeRecordJsonOrd τ) := by
+  rw [C14_decode_record_deterministic σ τ hp hk]
 
-/-- decode → `MarshalJSON` IS deterministic: the encoder puts the entries back into a Go map and
-    `encoding/json` sorts map keys -/
-theorem C14_decode_encode_json_deterministic (σ τ : List (String × Expr)) (hp : σ.Perm τ) :
-    jsonRecordKeyOrder (decodeRecordJsonOrd σ) = jsonRecordKeyOrder (decodeRecordJsonOrd τ) := by
-  unfold jsonRecordKeyOrder decodeRecordJsonOrd
-  exact sortBy_eq_of_perm strLe_linOrd (hp.map _)
+/-- …and the same for annotations (was `C14_decode_encode_annotations_counterexample`) -/
+theorem C14_decode_annotations_deterministic (p : Policy) (σ τ : List (String × String)) (hp : σ.Perm τ)
+    (hk : (σ.map (·.1)).Nodup) : decodeAnnotationsOrd p σ = decodeAnnotationsOrd p τ := by
+  unfold decodeAnnotationsOrd; rw [canonKVs_perm hp hk]
 
-theorem C14_decode_encode_json_annotations_deterministic (p : Policy) (σ τ : List (String × String)) (hp : σ.Perm τ) :
-    jsonAnnotationOrder (decodeAnnotationsOrd p σ) = jsonAnnotationOrder (decodeAnnotationsOrd p τ) := by
-  unfold jsonAnnotationOrder decodeAnnotationsOrd
-  exact sortBy_eq_of_perm strLe_linOrd (hp.map _)
-
-/-- whatever order the decoder produced, the decoded record literal evaluates alike (up to which error) -/
-theorem C14_decoded_record_evaluates_alike_partial (σ τ : List (String × Expr)) (env : Env) (hp : σ.Perm τ)
+theorem C14_decode_encode_annotations_deterministic (p : Policy) (σ τ : List (String × String)) (hp : σ.Perm τ)
     (hk : (σ.map (·.1)).Nodup) :
-    Res.sim (eval (decodeRecordJsonOrd σ) env) (eval (decodeRecordJsonOrd τ) env) :=
-  evalRecord_perm_sim σ τ env hp hk
+    cedarAnnotationOrder (decodeAnnotationsOrd p σ) = cedarAnnotationOrder (decodeAnnotationsOrd p τ) := by
+  rw [C14_decode_annotations_deterministic p σ τ hp hk]
 
-/-- FULL statement (false today): a set rebuilt from the same members in another order renders alike.
-    `coerceSet` (decode of entity JSON with a schema) feeds `NewSet` in Go map order; two members with the
-    same hash swap their slots, hence their place in the JSON text. -/
-theorem C14_coerceSet_order_counterexample :
-    ∃ σ τ : List (Nat × String), σ.Perm τ ∧ coerceSetOrd σ ≠ coerceSetOrd τ :=
-  ⟨[(3, "{0.0001,0.0002}"), (3, "{0.0003}")], [(3, "{0.0003}"), (3, "{0.0001,0.0002}")], List.Perm.swap _ _ _, by decide +kernel⟩
+-- regression: the former witnesses
+example : cedarRecordKeyOrder (decodeRecordJsonOrd [("b", .lit (.long 2)), ("a", .lit (.long 1))]) = ["a", "b"] := by
+  decide +kernel
+example : cedarAnnotationOrder (decodeAnnotationsOrd { effect := .permit } [("b", "2"), ("a", "1")]) = ["a", "b"] := by
+  decide +kernel
+
+/-- decode → `MarshalJSON` is deterministic too (it always was: the encoder puts the entries back into a Go map and
+    `encoding/json` sorts map keys) -/
+theorem C14_decode_encode_json_deterministic (σ τ : List (String × Expr)) (hp : σ.Perm τ) (hk : (σ.map (·.1)).Nodup) :
+    jsonRecordKeyOrder (decodeRecordJsonOrd σ) = jsonRecordKeyOrder (decodeRecordJsonOrd τ) := by
+  rw [C14_decode_record_deterministic σ τ hp hk]
+
+theorem C14_decode_encode_json_annotations_deterministic (p : Policy) (σ τ : List (String × String)) (hp : σ.Perm τ)
+    (hk : (σ.map (·.1)).Nodup) :
+    jsonAnnotationOrder (decodeAnnotationsOrd p σ) = jsonAnnotationOrder (decodeAnnotationsOrd p τ) := by
+  rw [C14_decode_annotations_deterministic p σ τ hp hk]
+
+/-- the decoded record literal evaluates like the literal with the entries in any listed order -/
+theorem C14_decoded_record_evaluates_alike (σ τ : List (String × Expr)) (env : Env) (hp : σ.Perm τ)
+    (hk : (σ.map (·.1)).Nodup) :
+    eval (decodeRecordJsonOrd σ) env = eval (decodeRecordJsonOrd τ) env ∧
+    eval (decodeRecordJsonOrd σ) env = eval (.record σ) env := by
+  refine ⟨by rw [C14_decode_record_deterministic σ τ hp hk], ?_⟩
+  unfold decodeRecordJsonOrd
+  exact eval_recordLit_canon σ env
+
+/-- A set rebuilt by `coerceSet` (decode of entity JSON with a schema) renders alike whatever order `Set.All()` yielded
+    the members in: they are sorted before `NewSet` assigns the slots.  (Was `C14_coerceSet_order_counterexample`: two
+    members with the same hash swapped their slots, hence their place in the JSON text.) -/
+theorem C14_coerceSet_order_indep (hash : String → Nat) (σ τ : List String) (hp : σ.Perm τ) :
+    coerceSetOrd hash σ = coerceSetOrd hash τ := by
+  unfold coerceSetOrd; rw [sortBy_eq_of_perm strLe_linOrd hp]
+
+-- regression: the former witness (both members hash to 3)
+example : coerceSetOrd (fun _ => 3) ["{0.0001,0.0002}", "{0.0003}"] = coerceSetOrd (fun _ => 3) ["{0.0003}", "{0.0001,0.0002}"] := by
+  decide +kernel
 
 /-- without collisions the rendering order is the hash order, whatever the insertion order (two members) -/
-example : coerceSetOrd [(5, "a"), (3, "b")] = coerceSetOrd [(3, "b"), (5, "a")] := by decide +kernel
+example : coerceSetOrd (fun m => if m == "a" then 5 else 3) ["a", "b"] = ["b", "a"] := by decide +kernel
 
 /-! ### Non-vacuity -/
 
 -- a permuted, duplicate-free key list is sorted back to the same list
 example : encodeSorted strLe id ["policy2", "policy10", "a"] = ["a", "policy10", "policy2"] := by decide +kernel
 example : sortBy uidLe [("User", "b"), ("Group", "z"), ("User", "a")] = [("Group", "z"), ("User", "a"), ("User", "b")] := by decide +kernel
--- a record literal with one erroring entry satisfies the same-kind hypothesis (and the nodup one)
+-- a record literal with distinct keys (the nodup hypothesis)
 example : ((([("a", Expr.lit (.long 1)), ("b", .access (.var .context) "m")] : List (String × Expr)).map (·.1)).Nodup) := by decide
 -- a schedule that really permutes
 example : Resched (.record [("a", .lit (.long 1)), ("b", .lit (.long 2))]) (.record [("b", .lit (.long 2)), ("a", .lit (.long 1))]) := by
@@ -298,6 +327,6 @@ example : Resched (.record [("a", .lit (.long 1)), ("b", .lit (.long 2))]) (.rec
   exact ⟨[("a", .lit (.long 1)), ("b", .lit (.long 2))], _, rfl, by simp [ReschedKVs, Resched], List.Perm.swap _ _ _, by decide⟩
 -- containsAll over a permuted pair of sets
 example : containsAllLoop [.long 1, .long 2, .long 3] [.long 3, .long 1] = true := by decide +kernel
-example : inSetFirstBad [.entity "A" "a", .long 1] = some "long" := by decide
+example : inSetFirstBad [.entity "A" "a", .long 1] = some "long" := by decide +kernel
 
 end CedarGo
